@@ -123,7 +123,25 @@ def run_script(script: dict[str, Any]) -> dict[str, Any]:
             # (None is a legal predicate: "accept every message" / "stop at the first message")
             ap = None if spec.get("append_none") else do_append
             st = None if spec.get("stop_none") else do_stop
-            recs[i] = sim.call(f"call{i}", lambda: conn.send_messages_await_response_complex((req,), ap, st, types, spec["timeout"]), eager=eager)
+            amb = spec.get("ambient")
+            if amb:
+                # the caller awaits the call from INSIDE an exception handler (clean-up in an `except TimeoutError:` body after its own deadline,
+                # as the library's BLE connect does with its disconnect): sys.exc_info() is not empty while the call runs and when it ends
+                import asyncio as _asyncio  # noqa: PLC0415
+
+                from aioesphomeapi.core import TimeoutAPIError as _TimeoutAPIError  # noqa: PLC0415
+
+                exc_cls = {"TimeoutError": TimeoutError, "CancelledError": _asyncio.CancelledError, "KeyError": KeyError, "TimeoutAPIError": _TimeoutAPIError}[amb]
+
+                async def inside_handler() -> Any:
+                    try:
+                        raise exc_cls("the caller is handling this one")
+                    except exc_cls:
+                        return await conn.send_messages_await_response_complex((req,), ap, st, types, spec["timeout"])
+
+                recs[i] = sim.call(f"call{i}", inside_handler, eager=eager)
+            else:
+                recs[i] = sim.call(f"call{i}", lambda: conn.send_messages_await_response_complex((req,), ap, st, types, spec["timeout"]), eager=eager)
             if eager:
                 t_call[i] = sim.clock
 
@@ -479,6 +497,8 @@ def gen_script(rng: Any, framing: str) -> dict[str, Any]:
                 gap = "chunk"
             events.append([gap, "close", cause])
     out = {"framing": framing, "calls": calls, "events": events, "coalesce": rng.random() < 0.5}
+    if rng.random() < 0.25:
+        calls[rng.randrange(ncalls)]["ambient"] = rng.choice(["TimeoutError", "TimeoutError", "CancelledError", "KeyError", "TimeoutAPIError"])
     if ncalls > 1 and rng.random() < 0.25:
         out["same_request"] = True
     if any(e[1] == "close" and e[2] == "disconnect" for e in events):
@@ -512,6 +532,9 @@ def one(ctx: Ctx, script: dict[str, Any], label: str) -> None:
     res.count("arrivals_seen_by_process_packet", len(o["arrivals"]))
     res.count("predicate_invocations", sum(len(p) for p in o["pred_log"]))
     res.count("leftover_audits", len(o["audits"]))
+    for c_ in script["calls"]:
+        if c_.get("ambient"):
+            res.count(f"caller-inside-exception-handler/{c_['ambient']}")
     if ended:
         res.sig(script["framing"], tuple((tuple(c["types"]), c["timeout"], len(c["instant"])) for c in script["calls"]),
                 tuple((e[1], e[0] if isinstance(e[0], str) else "to") + tuple(e[2:]) for e in script["events"]),
